@@ -332,3 +332,46 @@ Proof.
           |exists CF64; split; [right; reflexivity|]; vm_compute; split; [tauto|reflexivity]]|]).
   contradiction.
 Qed.
+
+(* ---------------------------------------------------------------- loop counters cannot wrap *)
+Lemma range_len_nonneg start stop step : 0 <= range_len start stop step.
+Proof.
+  unfold range_len. destruct (Z.gtb_spec step 0).
+  - destruct (Z.ltb_spec start stop); [apply Z.div_pos; lia|lia].
+  - destruct (Z.ltb_spec step 0); [|lia].
+    destruct (Z.ltb_spec stop start); [apply Z.div_pos; lia|lia].
+Qed.
+
+Lemma counter_fmt_wf b : 0 <= b -> af_wf (counter_fmt b).
+Proof.
+  intros Hb. unfold af_wf, counter_fmt; simpl. repeat split; try congruence; try (unfold rf_wf; simpl; lia).
+  - rewrite R2R_int. apply IZR_le. lia.
+  - rewrite R2R_int. apply IZR_le. lia.
+Qed.
+
+Lemma z2fl_gamma b z : 0 <= b -> - b <= z <= b -> gamma (counter_fmt b) (z2fl z).
+Proof.
+  intros Hb Hz.
+  apply (int_gamma (counter_fmt b) (- b) b (RF false 0 b) (RF true 0 b)); try reflexivity;
+    try (unfold rf_wf; simpl; lia); try (rewrite R2R_int; reflexivity).
+  unfold z2fl, int_repr. split; [unfold rf_wf; simpl; lia|]. split.
+  - simpl. intros H0. destruct (Z.ltb_spec z 0); [lia|reflexivity].
+  - exists z. split; [|lia]. rewrite R2R_int. f_equal. destruct (Z.ltb_spec z 0); lia.
+Qed.
+
+(* every value the C-style counter takes -- start + k * step for k = 0 .. len(range), the last one being the
+   overshoot past `stop` -- is a value of the chosen counter type: `i += step` never wraps *)
+Theorem counter_no_wrap start stop step t k : step <> 0 ->
+  range_counter_scalar start stop step = SLadder t ->
+  0 <= k <= range_len start stop step ->
+  machine_repr t (z2fl (start + k * step)).
+Proof.
+  intros Hs Hc Hk. unfold range_counter_scalar in Hc.
+  set (b := counter_bound start stop step) in *.
+  assert (Hb : 0 <= b) by (unfold b, counter_bound; lia).
+  apply (proj1 (storage_contains (counter_fmt b) false t (counter_fmt_wf b Hb) Hc)).
+  apply z2fl_gamma; [exact Hb|].
+  unfold b, counter_bound. set (n := range_len start stop step) in *.
+  assert (0 <= k * step <= n * step \/ n * step <= k * step <= 0) by nia.
+  lia.
+Qed.
